@@ -449,6 +449,7 @@ func (u *upstream) handleRedirection(req *simpleRequest, resp *RespValue) {
 // the redirections were received.
 func (u *upstream) loopRedirect() {
 	for {
+		vhook.At("redis.upstream.redirect.before_wait")
 		select {
 		case <-u.quit:
 			u.redirsMu.Lock()
